@@ -5,6 +5,7 @@ From Coq Require Import List NArith Bool Arith Sorted.
 From Coq Require Import Strings.Byte.
 Require Import BS.Bytes BS.Common BS.Api BS.Layout BS.Format BS.FormatFacts BS.Spec BS.SpecStep.
 Require Import BS.FS BS.FSFacts BS.Meta BS.MetaFacts BS.Header BS.Reader BS.ReaderFacts BS.Index BS.Data BS.DataFacts BS.Seek BS.Series BS.SeriesFacts BS.CacheFacts BS.AppendOnlyFacts.
+Require Import BS.World BS.Judge BS.JudgeFacts.
 Import ListNotations.
 
 (* (I) an accepted append only adds bytes at the end of the data and the index file and touches no
@@ -33,3 +34,16 @@ Proof. exact push_line_append_only. Qed.
 Print Assumptions C16_append_only_with_caches.
 (* reads, counts and accessors return the file system they were given (the `fs` in `= (fs, ...)` of C02, C10, C12, C13, C14):
    they modify no file. *)
+
+(* (I refines S, at the level of the public API) every session - create a series in an empty directory, then ANY sequence of
+   appends (accepted or refused), full and bounded reads, first-n reads, line counts and accessor calls, with any arguments
+   the types admit - run on the model of the library is ACCEPTED BY THE JUDGE, the extracted specification that decides
+   whether an observed behaviour satisfies the properties: every answer of the model is in the set the judge allows, after
+   every step the files of the model are byte for byte the files the judge expects, and the judge stays determined. On this
+   fragment a judge failure on the implementation is therefore a deviation of the code from its model. *)
+Theorem C16_session_accepted_by_judge : forall (name:list byte) (p:nat) (hdr:list byte),
+  (len (params_to_text BSgen.Consts.version (N.of_nat p) ++ hdr) <= 65535)%N ->
+  forall cb ops, Forall sess_op ops ->
+  accepted World.init_world judge_init (ONew name (N.of_nat p) hdr [] cb :: ops).
+Proof. exact session_accepted. Qed.
+Print Assumptions C16_session_accepted_by_judge.
